@@ -327,8 +327,40 @@ def narrower_data_case(ctx):
                        "observed": real})
 
 
+def history_rows(ctx):
+    """counts that become too large through the model's history (valid when set, invalid for the data fitted later)"""
+    from pysensors.basis import Identity
+    from pysensors.reconstruction import SSPOR
+    X = (np.arange(48, dtype=float).reshape(6, 8) * 7) % 11
+    Xn = X[:, :5].copy()
+    rows = []
+    # explicit count equal to the width of the first data set, then narrower data
+    for how in ("ctor", "setter", "setter_after_other_values"):
+        m = SSPOR(basis=Identity(n_basis_modes=3), n_sensors=8 if how == "ctor" else None).fit(X.copy(), quiet=True, seed=0)
+        if how == "setter":
+            m.set_number_of_sensors(8)
+        elif how == "setter_after_other_values":
+            m.set_n_sensors(3); m.set_n_sensors(8)
+        rows.append((f"SSPOR[n_sensors=8 via {how}].fit(narrower data, 5 sensors)", outcome(lambda: m.fit(Xn.copy(), quiet=True, seed=0)), "E:ValueError"))
+        m2 = SSPOR(basis=Identity(n_basis_modes=3), n_sensors=8 if how == "ctor" else None).fit(X.copy(), quiet=True, seed=0)
+        if how != "ctor":
+            m2.set_number_of_sensors(8)
+        rows.append((f"SSPOR[n_sensors=8 via {how}].update_n_basis_modes(4, narrower data)",
+                     outcome(lambda: m2.update_n_basis_modes(4, Xn.copy(), quiet=True)), "E:ValueError"))
+    # a defaulted count follows the data (no error), an explicit smaller one stays
+    m = SSPOR(basis=Identity(n_basis_modes=3)).fit(X.copy(), quiet=True, seed=0)
+    rows.append(("SSPOR[default n_sensors].fit(narrower data)", outcome(lambda: m.fit(Xn.copy(), quiet=True, seed=0)), None))
+    for cell, real, req in rows:
+        ctx.evaluations += 1
+        ctx.nontriv("hist:" + cell)
+        if req is not None and real != req:
+            ctx.violation("concrete", f"{cell}: {('accepted' if real == 'ok' else 'raised ' + real[2:])}, the property requires {req[2:]}",
+                          {"signature": "invalid-request:history:" + ("accepted" if real == "ok" else real), "cell": cell, "observed": real, "required": req})
+
+
 def run(ctx: C.Ctx):
     rng = ctx.rng
+    history_rows(ctx)
     for rep in range(ctx.scale(1, 6)):
         T, info = build_table(ctx, rng)
         judge(ctx, T, info, f"t{rep}:")
